@@ -120,6 +120,11 @@ class WriterDriver(explore.Driver):
         if st.path.exists():
             st.path.unlink()
         st.pool = gen.make_events(POOL, seed=self.seed)
+        # float32 image feature (separate writer path) and a scalar that is
+        # stored from a python list
+        rs = np.random.RandomState(self.seed + 77)
+        st.pool["qpi_pha"] = rs.uniform(-3, 3, (POOL,) + gen.IMG_SHAPE
+                                        ).astype(np.float32)
         st.next = 0
         st.model = {"feats": {}, "logs": {}, "tables": {}, "meta": {}}
         st.err = []
@@ -318,18 +323,20 @@ class WriterDriver(explore.Driver):
                     got = evg[feat][:]
                     want = e
                     if feat == "mask":
-                        want = e.astype(np.uint8) * 255
+                        # any non-zero encoding of True is acceptable
+                        got = got > 0
                     if not gen.arrays_equal(got, want):
                         bad(W + ".write_ndarray", "wrong-data-h5py",
                             f"{feat}: got {np.asarray(got).tolist()!r:.300} "
                             f"want {np.asarray(want).tolist()!r:.300}",
                             feat=feat)
-                    dt = {"fl1_max": "uint32", "index": "uint32",
-                          "frame": "uint64", "image": "uint8",
-                          "mask": "uint8", "deform": "float64"}.get(feat)
-                    if dt and str(evg[feat].dtype) != dt:
+                    # integer-typed features stay integer typed
+                    kind = {"fl1_max": "ui", "index": "ui", "frame": "ui",
+                            "image": "ui", "deform": "f"}.get(feat)
+                    if kind and evg[feat].dtype.kind not in kind:
                         bad(W + ".store_feature", "wrong-dtype",
-                            f"{feat}: {evg[feat].dtype} != {dt}", feat=feat)
+                            f"{feat}: {evg[feat].dtype} is not of kind "
+                            f"{kind}", feat=feat)
             for name, lines in mdl["logs"].items():
                 if name not in h5.get("logs", {}):
                     bad(W + ".write_text", "log-missing", name)
@@ -376,9 +383,6 @@ class WriterDriver(explore.Driver):
                 if got is None or not _meta_eq(got, v):
                     bad(W + ".store_metadata", "wrong-metadata-h5py",
                         f"{sec}:{k}: got {got!r} want {v!r}", key=f"{sec}:{k}")
-            extra = set(h5.attrs.keys()) - {f"{s}:{k}" for s, k in mdl["meta"]}
-            if extra:
-                bad(W + ".store_metadata", "extra-metadata", f"{extra}")
         # ---- through dclab ----
         if n:
             import dclab
